@@ -96,8 +96,20 @@ pub fn skeleton(p: &Prog) -> Skel {
         thread_evs[0].push(evs.len());
         evs.push((0, Some(*op)));
     }
+    // for a thread that main spawns later: the number of main's events (pre included) that precede its spawn
+    let mut spawned_after: Vec<Option<usize>> = vec![None; p.threads.len().max(1)];
     for (t, ops) in p.threads.iter().enumerate() {
-        for op in ops {
+        for (i, op) in ops.iter().enumerate() {
+            if let Op::SpawnFrom { .. } = op {
+                if t == 0 {
+                    for u in 1..p.threads.len() {
+                        if p.spawn_pos(u) == Some(i) {
+                            spawned_after[u] = Some(thread_evs[0].len());
+                        }
+                    }
+                }
+                continue;
+            }
             thread_evs[t].push(evs.len());
             evs.push((t, Some(*op)));
         }
@@ -141,6 +153,11 @@ pub fn skeleton(p: &Prog) -> Skel {
             for &pe in &pre_evs {
                 extra[pe] |= 1 << a;
             }
+            if let Some(k) = spawned_after[t] {
+                for &me in &thread_evs[0][..k] {
+                    extra[me] |= 1 << a;
+                }
+            }
         }
     }
     let mut locs: Vec<Option<u8>> = Vec::new();
@@ -169,6 +186,7 @@ pub fn skeleton(p: &Prog) -> Skel {
                 }
                 Op::Fence { .. } | Op::CellRead { .. } | Op::CellWrite { .. } | Op::UnsyncLoad { .. } => {}
                 Op::CellHold { .. } => unreachable!("expanded before the oracle"),
+                Op::SpawnFrom { .. } => unreachable!("not an event"),
             }
         }
     }
@@ -258,6 +276,7 @@ fn evaluate(sk: &Skel, rf: &[usize]) -> Option<Vec<Ev>> {
                 Some(Op::CellWrite { c }) => Ev { tid, kind: Kind::NW, loc: None, ord: Ord_::Rlx, wval: 0, rval: 0, cell: Some(c) },
                 Some(Op::UnsyncLoad { loc }) => Ev { tid, kind: Kind::NR, loc: None, ord: Ord_::Rlx, wval: 0, rval: 0, cell: Some(100 + loc) },
                 Some(Op::CellHold { .. }) => unreachable!("expanded before the oracle"),
+                Some(Op::SpawnFrom { .. }) => unreachable!("not an event"),
             };
             evs[i] = Some(ev);
             done += 1;
@@ -797,6 +816,7 @@ pub fn outcomes_sc(p: &Prog) -> (BTreeSet<Vec<u64>>, bool) {
             }
             Op::Fence { .. } | Op::CellRead { .. } | Op::CellWrite { .. } | Op::UnsyncLoad { .. } => {}
             Op::CellHold { loc, val, .. } => mem[loc as usize] = val,
+            Op::SpawnFrom { .. } => {}
         }
     }
     fn go(s: &mut S, pcs: &mut Vec<usize>, mem: &mut Vec<u64>, reads: &mut Vec<Vec<u64>>) {
@@ -810,6 +830,12 @@ pub fn outcomes_sc(p: &Prog) -> (BTreeSet<Vec<u64>>, bool) {
         for t in 0..s.p.threads.len() {
             if pcs[t] < s.p.threads[t].len() {
                 unfinished = true;
+                // a thread that main spawns later cannot run before that
+                if let Some(i) = s.p.spawn_pos(t) {
+                    if pcs[0] <= i {
+                        continue;
+                    }
+                }
                 let op = s.p.threads[t][pcs[t]];
                 if let Op::Await { loc, min, .. } = op {
                     if mem[loc as usize] < min {
